@@ -136,12 +136,12 @@ func bodyOK(kind int, body, expected []byte, msg any) bool {
 // ---------- scripted server ----------
 
 type attemptSpec struct {
-	kind                              int // 0 drop, 1 body error, 2 response
-	status                            int
-	samples, hist, exem, retryAfter   string
-	futureDate                        bool // Retry-After = an HTTP date 1-2 s ahead, computed when answering
-	raDate                            *int64
-	cancel                            int
+	kind                            int // 0 drop, 1 body error, 2 response
+	status                          int
+	samples, hist, exem, retryAfter string
+	futureDate                      bool // Retry-After = an HTTP date 1-2 s ahead, computed when answering
+	raDate                          *int64
+	cancel                          int
 }
 
 type obsReq struct {
@@ -898,12 +898,12 @@ func hdrOpt(h http.Header, k string) (string, bool) {
 }
 
 type hcase struct {
-	accepted      []string
-	method        string
-	ctype, cenc   *string
-	body          []byte
-	beh           storeBeh
-	ast           *ctAst
+	accepted    []string
+	method      string
+	ctype, cenc *string
+	body        []byte
+	beh         storeBeh
+	ast         *ctAst
 }
 
 func runHandlerCase(hc *hcase) string {
@@ -977,6 +977,9 @@ func genStoreBeh(r *emit.Rng) storeBeh {
 	if r.Chance(1, 20) {
 		b.s = -3
 	}
+	if r.Chance(1, 8) { // the store returns no response at all: (nil, err) or (nil, nil)
+		b.nilResp = true
+	}
 	return b
 }
 
@@ -1045,9 +1048,14 @@ func runHandlerStreams(c *cli.Ctx, rng *emit.Rng) error {
 		} else {
 			tags = append(tags, "cenc:"+*hc.cenc)
 		}
-		if hc.beh.err {
+		switch {
+		case hc.beh.nilResp && hc.beh.err:
+			tags = append(tags, "store:(nil,err)")
+		case hc.beh.nilResp:
+			tags = append(tags, "store:(nil,nil)")
+		case hc.beh.err:
 			tags = append(tags, fmt.Sprintf("store:error-status-%d", hc.beh.status))
-		} else {
+		default:
 			tags = append(tags, "store:ok")
 		}
 		add(hc, tags)
@@ -1148,14 +1156,7 @@ func runHandlerStreams(c *cli.Ctx, rng *emit.Rng) error {
 		return err
 	}
 
-	// known finding: the store returns (nil, err)
-	w = emit.NewWriter(c.Out, "C20", "known-store-nil-response")
-	for _, e := range []bool{true} {
-		hc := &hcase{accepted: []string{v1Name, v2Name}, method: "POST", ctype: sp("application/x-protobuf"), cenc: sp("snappy"),
-			body: snappy.Encode(nil, []byte("payload")), beh: storeBeh{nilResp: true, err: e}}
-		w.Add(runHandlerCase(hc), true, "store:nil-response")
-	}
-	return w.Flush()
+	return nil
 }
 
 func runC20(c *cli.Ctx) error {
